@@ -194,6 +194,10 @@ pub fn gen_cfg(t: &mut Tape, o: &CfgOpts) -> CfgInfo {
         if everything || t.weighted(&[3, 1]) == 0 {
             m.insert("allowedWithoutCallee".into(), json!(true));
         }
+        // renamed bare methods
+        if t.chance(90) {
+            m.insert("dst".into(), json!(format!("bare{}", name.len())));
+        }
         list.push(Value::Object(m));
     }
     if !everything && t.chance(20) {
